@@ -325,8 +325,8 @@ func TestC06(t *testing.T) {
 		cfg := c06EngConfigs[ci%5]
 		if ci == 40 {
 			cfg = c06EngConfigs[5] // padded commit flavour is ~100x slower: 1 case in 41
-			if width%16 != 0 {
-				width = 16 * ((width + 15) / 16)
+			if width%16 != 0 && rapid.Bool().Draw(rt, "align") {
+				width = 16 * ((width + 15) / 16) // unaligned widths must be refused; aligned ones must be exact
 			}
 		}
 		v := genRCValue(width).Draw(rt, "v")
@@ -365,9 +365,9 @@ func TestC06(t *testing.T) {
 	commitWidths := []uint64{0, 16, 64, 144}
 	if rec.Thorough() {
 		compWidths = append([]uint64{0}, c06Widths...)
-		commitWidths = []uint64{0, 16, 32, 48, 64, 96, 128, 144, 192, 17, 31}
+		commitWidths = []uint64{0, 16, 32, 48, 64, 96, 128, 144, 192, 17, 31, 1, 8, 15, 33, 63}
 	} else {
-		commitWidths = append(commitWidths, 17)
+		commitWidths = append(commitWidths, 17, 8)
 	}
 	var keys []c06SysKey
 	for _, kind := range []cs.Kind{cs.R1CS, cs.SCS} {
